@@ -6,9 +6,9 @@ HOOKS = {
     "add_only": True,
 }
 ENGINES = [
-    {"name": "coq-model", "path": "/verif/coq", "serves_properties": ["C01", "C02", "C07", "C08", "C12", "C13", "C14", "C17", "C20"],
+    {"name": "coq-model", "path": "/verif/coq", "serves_properties": ["C01", "C02", "C07", "C08", "C12", "C13", "C14", "C17", "C18", "C20"],
      "kind_free_text": "hand-written Gallina model (Model/), proofs (Proofs/), property theorems (Props/), Coq 8.16.1"},
-    {"name": "correspondence", "path": "/verif/harness", "serves_properties": ["C01", "C02", "C07", "C08", "C12", "C13", "C14", "C17", "C20"],
+    {"name": "correspondence", "path": "/verif/harness", "serves_properties": ["C01", "C02", "C07", "C08", "C12", "C13", "C14", "C17", "C18", "C20"],
      "kind_free_text": "Go harness driving /repo (built with -tags verif) + extracted OCaml model and oracle (ocaml/) on the same cases"},
 ]
 NOTES = ("Every check: rebuild Coq closure of Props/<id>.v, parse Print Assumptions, build harness against /repo's working tree, "
@@ -62,6 +62,19 @@ CHECKS = [
         "inputs). The model's OSetMeta None has no Go counterpart (SetMetadata(nil) errors) and is never generated.",
         "Coq proof (refinement to a (records, pending, metadata) machine by induction over histories) + differential correspondence",
         "DESIGN.md section 8 C17"),
+    chk("C18",
+        "10 Coq theorems (Props/C18.v) over a Gallina model of csv.go and of the parts of encoding/csv and strconv it relies on: quoting/parsing "
+        "round trip for every record outside an exactly characterised class (C18_quote_roundtrip; commas, quotes, LF, lone CR inside), integer "
+        "rendering round trip for every int64, datetime columns render as non-numeric text, WriteCSV = header of the keys + one row per sample with "
+        "the integer-normalised values for EVERY chunk list of constant metric count, a count change is an error after the earlier rows, DumpCSV "
+        "starts a new self-describing file exactly at count changes for every chunk list, ConvertFromCSV hands the collector exactly one (key, "
+        "int64) document per sample, and - composed with C08_dynamic - the re-read table equals the original (C18_roundtrip_reread). "
+        "Correspondence incl. all keys of <= 3 characters over {a , \" LF}; extracted oracles on CSV text, file sets and re-read chunks.",
+        "Trusted: as C01; Go's encoding/csv and strconv are modelled (and compared). Two known findings rooted in encoding/csv: a lone empty key is "
+        "written as a blank line; CR LF inside a key is read back as LF (proved as *_refuted witnesses). The lost final-flush error of "
+        "ConvertFromCSV is modelled and compared, outside the property's wording.",
+        "Coq proof (induction over fields/records/chunks) + differential correspondence",
+        "DESIGN.md section 8 C18"),
     chk("C20",
         "Seven Coq theorems (Props/C20.v) over a Gallina model of t2.go (TranslateGenny, translateAtNextWindow with its inclusive prevIdx "
         "cursor and chunk advance, translateMetrics' selection by key, GetGennyTime, the 300-sample streaming collector): for every actor list "
